@@ -115,7 +115,7 @@ def agree(got, ref, *operands):
     return float(np.linalg.norm(got - ref)) <= 1e-10 * scale
 
 
-SCALARS = [2, 0.5, 1j, np.float64(1.5), np.int64(3), 0, -1.0, 0.0]
+SCALARS = [2, 0.5, 1j, np.float64(1.5), np.int64(3), 0, -1.0, 0.0, 1, np.float64(1.0)]      # incl. the neutral elements 0 and 1
 ACCEPTED_EXC = (TypeError, AssertionError, ZeroDivisionError, FloatingPointError, OverflowError)
 
 
@@ -255,6 +255,24 @@ def run_case(desc, seed):
             nonzero[0] = True
         if not agree(dr, ref, dx, dy):
             add(f"C15:homomorphism:{typename(v1)}{o}{typename(v2)}", f"[{fam.name}] dense({d1} {o} {d2}) differs from dense({d1}) {o} dense({d2}) by rel {rel_err(dr, ref):.2e}; lib value {r}")
+        # history: the result is a NEW expression -- extending it in place (+=, append) must leave both operands denoting what they denoted
+        if isinstance(r, OpSum) and (isinstance(v1, list) or isinstance(v2, list)):
+            try:
+                extra = fam.atoms()[0]
+                r += extra
+                r.append(extra * 2)
+            except Exception:
+                return r
+            for dd, vv, dv in ((d1, v1, dx), (d2, v2, dy)):
+                if isinstance(vv, list):
+                    try:
+                        now = fam.dense(vv)
+                    except NotOperator:
+                        continue
+                    if not agree(now, dv, dv):
+                        add(f"C15:result-aliases-operand:{typename(v1)}{o}{typename(v2)}", f"[{fam.name}] after r = {d1} {o} {d2}; r += A; r.append(2A) the operand {dd} denotes a different operator (changed by rel {rel_err(now, dv):.2e})")
+                        # repair the operand so that later nodes of this case are not polluted
+                        del vv[-2:]
         return r
 
     if kind in ("lv0", "lv1"):
